@@ -20,7 +20,7 @@ def sval(rng, d, c, multi_ok=True):
 def history(rng, o, d, c):
     cmds = [rng.choice(["newkf %d %d %d" % (o, d, c), "newempty %d" % o])]
     if cmds[0].startswith("newempty"): cmds.append("settags %d %d %d" % (o, d, c))
-    groups = [None, b"A", b"B", b"sec two", b"[A]"]
+    groups = [None, b"A", b"B", b"sec two", b"[A]", b"_npMe_", b"Az", b"BY"]       # _npMe_: djb2 hash of the internal _none_; Az/BY: equal hashes
     for _ in range(rng.randrange(0, 14)):
         g = rng.choice(groups)
         k = grammar.key(rng, bytes([d]), bytes([c]))
@@ -45,7 +45,7 @@ def compact_file(rng, d, c):
     out = []
     for _ in range(rng.randrange(2, 9)):
         r = rng.random()
-        if r < 0.12: out.append(b"[" + rng.choice([b"main", b"A", b"B b"]) + b"]")
+        if r < 0.12: out.append(b"[" + rng.choice([b"main", b"A", b"B b", b"_npMe_"]) + b"]")
         elif r < 0.17: out.append(cm + b" note")
         elif r < 0.2: out.append(b"")
         else:
